@@ -55,6 +55,7 @@ type vfOutcome struct {
 	Kind  string   // success | error | cancelled | none
 	Text  string   // error text or success message
 	Names []string // names reported on success
+	Zero  bool     // the success message says in so many words that 0 files were saved
 	Err   error
 }
 
@@ -544,8 +545,8 @@ func (s *vfSession) ClientOutcome() vfOutcome {
 					return vfOutcome{Kind: "error", Text: "undecodable " + m.Type}
 				}
 				if m.Type == "EXIT" {
-					_, _, names, _ := vfParseSaved(string(dec))
-					return vfOutcome{Kind: "success", Text: string(dec), Names: names}
+					n, _, names, ok := vfParseSaved(string(dec))
+					return vfOutcome{Kind: "success", Text: string(dec), Names: names, Zero: ok && n == 0 && len(names) == 0}
 				}
 				return vfOutcome{Kind: "error", Text: string(dec)}
 			}
@@ -593,8 +594,8 @@ func (s *vfSession) ServerOutcome() vfOutcome {
 		deadline := time.Now().Add(2 * time.Second)
 		for {
 			if msg, ok := vfStdoutFind(key, s.stdoutMark); ok {
-				_, _, names, _ := vfParseSaved(msg)
-				return vfOutcome{Kind: "success", Text: msg, Names: names}
+				n, _, names, ok := vfParseSaved(msg)
+				return vfOutcome{Kind: "success", Text: msg, Names: names, Zero: ok && n == 0 && len(names) == 0}
 			}
 			if msg, ok := vfStdoutFind(" to "+s.destRoot, s.stdoutMark); ok && !strings.Contains(msg, "\r\n- ") {
 				return vfOutcome{Kind: "success", Text: msg}
